@@ -308,7 +308,7 @@ def footprint (t p : Path) : Bool :=
 structure Sys where
   dest : FS
   temp : FS
-deriving Repr, Inhabited
+deriving DecidableEq, Repr, Inhabited
 
 inductive PStep
   | temp (cfg : Cfg) (s : Step)     -- a `create()` step acting on the temporary file
